@@ -386,7 +386,9 @@ func runBatch(bin, prop string, seed uint64, n, chunk, workers int, deadline tim
 				// the batch deadline means a library call does not return
 				ctx, cancel := context.WithDeadline(context.Background(), deadline.Add(5*time.Minute))
 				cmd := exec.CommandContext(ctx, bin, args...)
-				cmd.Env = append(os.Environ(), "GOMAXPROCS=2")
+				// history runs are single-threaded simulations: one P keeps runtime-managed
+				// per-P state (sync.Pool) identical between a run and its replay
+				cmd.Env = append(os.Environ(), "GOMAXPROCS=1")
 				ob, err := cmd.CombinedOutput()
 				timedOut := ctx.Err() != nil
 				cancel()
@@ -646,6 +648,7 @@ func replayOnce(bin, path string) *violation {
 	ctx, cancel := context.WithTimeout(context.Background(), 2*time.Minute)
 	defer cancel()
 	cmd := exec.CommandContext(ctx, bin, "replay", "-trace", path, "-known", filepath.Join(verifDir, "known_findings.txt"))
+	cmd.Env = append(os.Environ(), "GOMAXPROCS=1")
 	out, _ := cmd.Output()
 	var rr runResult
 	lines := strings.Split(strings.TrimSpace(string(out)), "\n")
@@ -1018,6 +1021,7 @@ func cmdReplay(args []string) {
 		}
 		bin := build("edsim_replay", bargs...)
 		cmd := exec.Command(bin, "replay", "-trace", path, "-known", filepath.Join(verifDir, "known_findings.txt"), "-transcript")
+		cmd.Env = append(os.Environ(), "GOMAXPROCS=1")
 		out, _ := cmd.Output()
 		fmt.Print(string(out))
 		if v := replayFile(bin, path); v != nil {
